@@ -275,7 +275,18 @@ def run_instance(inst):
             p, s, a = concrete_vals()
             d = maxdev(sim(p, s, a), sim(p, s, a, ck))
             return d > 1e-9, {"ckpt": ck, "max_rel_dev": d}
-        out = enc(lambda p, s, a, ck=ck: sim(p, s, a, ck), P, setval, amp)
+        try:
+            out = enc(lambda p, s, a, ck=ck: sim(p, s, a, ck), P, setval, amp)
+        except interp.NotEncodable as ex:
+            res["inconclusive"].append({"instance": inst, "query": f"checkpoint_layout/{ck}", "reason": f"NotEncodable {ex}"[:160]}); continue
+        except Exception as ex:
+            # tracing the real call raised: a violation only if the same call with concrete inputs raises as well
+            p_, s_, a_ = concrete_vals()
+            try:
+                sim(p_, s_, a_, ck)
+            except Exception as ex2:
+                report("checkpoint_layout", "exception", f"integrate(checkpoint_lengths={ck}) raises {type(ex2).__name__}: {str(ex2)[:140]} (plain run of {n} steps succeeds)", str(ck)); continue
+            raise
         compare(out, base, "checkpoint_layout", str(ck), chk_ck)
     # ---------------- vmap over each kind of input
     B = 2
@@ -350,7 +361,8 @@ def families():
     for mod in mods:
         for solver, vs in combos:
             n = 3 if quick else 4
-            ck = [[n], [n + 1], [2, 2]] if quick else [[n], [n + 2], [2, 2], [2, 3], [2, 2, 2], [1, n], [n, 1]]
+            # incl. generous layouts whose product exceeds twice the number of steps (padding longer than the run itself)
+            ck = [[n], [n + 1], [2, 2], [2 * n + 2]] + ([[3, 3]] if mod == "comp_hh" else []) if quick else [[n], [n + 2], [2, 2], [2, 3], [2, 2, 2], [1, n], [n, 1], [3, 3], [2, 2, 3], [3 * n + 1]]
             insts.append({"module": mod, "solver": solver, "voltage_solver": vs, "steps": n, "ckpts": [c for c in ck if int(np.prod(c)) >= n]})
     for mod in ["net3_mixed", "cell_irreg_passive", "net2_iono"]:
         for solver, vs in combos[:2] if quick else combos:
@@ -371,7 +383,7 @@ def main():
                        "for all symbolic trainables, data_set value and stimulus amplitude",
         "evaluations": len(insts), "distinct_nontrivial": c.get("instances_encoded", 0),
         "rule": "instances = module x (solver, backend); each compares jit, 3-4 vmap modes x 2 rows, the checkpoint layouts and purity",
-        "bounds": {"steps": "3 quick / 4 thorough", "batch": 2, "checkpoint depth": "<=2 quick / <=3 thorough"},
+        "bounds": {"steps": "3 quick / 4 thorough", "batch": 2, "checkpoint depth": "<=2 quick / <=3 thorough", "checkpoint product": "steps .. 3*steps+1 (padding shorter and longer than the run)"},
         "outside": ["XLA compilation itself (jit compiles the very IR that is encoded)", "vmap for jax.sparse (JAX's spsolve has no batching rule: refusal)", "rounding"],
     }
     return rep.finish(cov, assumptions=["XLA is trusted to implement the IR", "spsolve as an uninterpreted deterministic function", "table immutability is a concrete side-check per instance"])
